@@ -203,6 +203,19 @@ static void gate_part(int lambda, int reps) {
         // any non-zero int is "true"
         if (i == 0) { bootsSymEncrypt(c, b ? 77 : 0, sk); if (bootsSymDecrypt(c, sk) != b) out.viol("decrypt:gate-api", J().i("lambda", lambda).i("bit", b).s("note", "non-zero int as true")); }
     }
+    // the whole decision region of each bit: the phase of a gate ciphertext of bit b may sit anywhere within 1/8 of +-1/8 (strictly);
+    // prescribed phase errors on a grid over (-1/8, 1/8), dense near both ends, plus the exact extremes +-(1/8 - 1 ulp)
+    { std::vector<int64_t> errs; const int64_t E = 1ll << 29;
+      for (int i = -200; i <= 200; i++) errs.push_back((int64_t) ((double) i / 201.0 * (double) E));
+      for (int64_t d = 1; d <= 4096; d *= 2) { errs.push_back(E - d); errs.push_back(-E + d); }
+      for (int t = 0; t < 300; t++) errs.push_back(rng.range(-E + 1, E - 1));
+      for (int b = 0; b < 2; b++) for (int64_t e: errs) {
+          bootsSymEncrypt(c, b, sk); inject_phase(c, b, e, sk);
+          VH_OP("bootsSymDecrypt:prescribed-phase:%d", lambda);
+          out.evaluations++;
+          if (bootsSymDecrypt(c, sk) != b) { out.viol("decrypt:gate-api", J().i("lambda", lambda).i("bit", b).d("phase_error_over_torus", (double) e / 4294967296.0).s("note", "phase prescribed inside the bit's decision region")); break; }
+      }
+      char c2[64]; snprintf(c2, sizeof c2, "gate-api:%dbit:prescribed-phases-over-the-decision-region", lambda <= 80 ? 80 : 128); out.cell(c2, 2 * errs.size()); }
     char cell[64]; snprintf(cell, sizeof cell, "gate-api:%dbit", lambda <= 80 ? 80 : 128); out.cell(cell);
     delete_gate_bootstrapping_ciphertext(c); delete_gate_bootstrapping_secret_keyset(sk); delete_gate_bootstrapping_parameters(p);
 }
